@@ -86,3 +86,29 @@ Theorem c_band_dtw_distance_ndim_euclidean :
                       c_dtw_distance_ndim_euclidean_skip c_dtw_distance_ndim_euclidean_length)
              (cv_length c_dtw_distance_ndim_euclidean_ldiff c_dtw_distance_ndim_euclidean_length).
 Proof. unfold band_facts. intros. repeat split; crush. Qed.
+
+(* ---------------------------------------------------------------- memory: the accesses of the row loop *)
+(* For a cell (i, j) of the band the C kernels write dtw[i1*length + j + 1 - skip] and read
+   dtw[i1*length + j - skip], dtw[i0*length + j - skipp], dtw[i0*length + j + 1 - skipp]
+   (skipp = the offset of row i-1).  All four offsets lie inside one row of the buffer. *)
+Lemma model_row_accesses l1 l2 w i j : 1 <= w -> 1 <= l1 -> 1 <= l2 -> 0 <= i < l1 ->
+  band_lo l1 l2 w i <= j < band_hi l1 l2 w i ->
+  0 <= j - eff_skip l1 l2 w i /\ j + 1 - eff_skip l1 l2 w i < py_dist_length l1 l2 w /\
+  (1 <= i -> 0 <= j - eff_skip l1 l2 w (i - 1) /\ j + 1 - eff_skip l1 l2 w (i - 1) < py_dist_length l1 l2 w).
+Proof.
+  unfold eff_skip, py_dist_skip, py_dist_length, band_lo, band_hi. intros.
+  destruct (Z.eqb_spec (Z.min (l2 + 1) (Z.abs (l1 - l2) + 2 * (w - 1) + 1 + 1 + 1)) (l2 + 1)); lia.
+Qed.
+
+Theorem c_row_accesses_in_buffer (maxj minj skip : Z -> Z -> Z -> Z -> Z) (length : Z -> Z -> Z -> Z) :
+  band_facts maxj minj skip length ->
+  forall l1 l2 window i j, 1 <= window -> 1 <= l1 -> 1 <= l2 -> 0 <= i < l1 ->
+  maxj l1 l2 window i <= j < minj l1 l2 window i ->
+  0 <= j - skip l1 l2 window i /\ j + 1 - skip l1 l2 window i < length l1 l2 window /\
+  (1 <= i -> 0 <= j - skip l1 l2 window (i - 1) /\ j + 1 - skip l1 l2 window (i - 1) < length l1 l2 window).
+Proof.
+  intros HF l1 l2 w i j Hw H1 H2 Hi Hj.
+  destruct (HF l1 l2 w i Hw H1 H2 Hi) as (E1 & E2 & E3 & E4). rewrite E1, E2 in Hj. rewrite E3, E4.
+  destruct (model_row_accesses l1 l2 w i j Hw H1 H2 Hi Hj) as (A & B & C). split; [exact A|]. split; [exact B|].
+  intros Hi1. destruct (HF l1 l2 w (i - 1) Hw H1 H2 ltac:(lia)) as (_ & _ & _ & E4'). rewrite E4'. apply C. exact Hi1.
+Qed.
